@@ -489,6 +489,22 @@ fn replay_one(beh: &Value, dir: &str, deep_every: bool, twin: bool) -> Value {
 					Err(_) => "panic".to_string(),
 				}
 			}
+			"SyncHeaders" => {
+				// the last `cnt` headers of the path to b, as one sync batch
+				let c = chain.as_ref().unwrap();
+				let cnt = s["cnt"].as_u64().unwrap() as usize;
+				let path = path_to(&w.tree, b);
+				let hs: Vec<_> = path[path.len() - cnt..].iter().map(|x| w.blocks[x].header.clone()).collect();
+				let r = std::panic::catch_unwind(std::panic::AssertUnwindSafe(|| {
+					let sync_head = c.header_head().unwrap();
+					c.sync_block_headers(&hs, sync_head, Options::SKIP_POW)
+				}));
+				match r {
+					Ok(Ok(_)) => "ok".to_string(),
+					Ok(Err(_)) => "reject".to_string(),
+					Err(_) => "panic".to_string(),
+				}
+			}
 			"Reopen" => {
 				chain = None;
 				match std::panic::catch_unwind(|| init_chain(&node_dir)) {
